@@ -177,6 +177,9 @@ type Proc struct {
 	// FileChunk bounds how many bytes one Read of an open regular file
 	// delivers (0 = as much as asked): short reads are legal for any reader.
 	FileChunk int
+	// StdoutTTY: stdout (and stderr) is a terminal, i.e. a character device;
+	// otherwise a pipe.
+	StdoutTTY bool
 	Faults    []Fault
 
 	Stdout bytes.Buffer
@@ -550,6 +553,7 @@ type Info struct {
 	Size  int64
 	Dir   bool
 	Pipe  bool
+	Char  bool
 	Clock int64
 }
 
@@ -577,6 +581,9 @@ func (h *Handle) Stat() (Info, error) {
 		}
 		return Info{Name: "stdin", Pipe: true, Clock: p.Clock}, nil
 	case 1, 2:
+		if p.StdoutTTY {
+			return Info{Name: h.Name, Char: true, Clock: p.Clock}, nil
+		}
 		return Info{Name: h.Name, Pipe: true, Clock: p.Clock}, nil
 	}
 	return Info{Name: h.Name, Size: int64(len(p.FS.Files[h.Name])), Clock: p.Clock}, nil
